@@ -378,7 +378,7 @@ def table_bfs(chk, name, keys, roots, max_depth, variant, full, with_clone, dead
                     elif diff_depth and len(states[other].hist) <= diff_depth and other != sid:
                         o = states[other]
                         h = st.hist + (op,)
-                        if (o.root, o.hist) != (st.root, h) and len(o.alts) < 2 and len(h) <= diff_depth + 2:
+                        if (o.root, o.hist) != (st.root, h) and len(o.alts) < 1 and len(h) <= diff_depth + 2:
                             if all(a != (st.root, h) for a in o.alts):
                                 o.alts.append((st.root, h))
             chk.add(transitions=ntrans, evaluations=ntrans)
@@ -400,11 +400,21 @@ def table_bfs(chk, name, keys, roots, max_depth, variant, full, with_clone, dead
                 chk.cap("%s: stopped after depth %d (next level ~%.0fs over the budget share)" % (name, depth, est))
                 break
             level = new_level
-        # differential start states
+        # differential start states: every state of depth <= diff_depth that was also reached by a
+        # different route is rebuilt along that route; it must observe the same and every successor
+        # operation must give the same observation. Done depth by depth, stops between depths.
         ndiff = 0
+        diff_done = 0
         if diff_depth:
-            sids = [i for i, s in enumerate(states) if s.alts]
-            if sids and time.time() < deadline:
+            per_state = (time.time() - t_start) / max(1, len(states))
+            for d in range(0, diff_depth + 1):
+                sids = [i for i, s in enumerate(states) if s.alts and len(s.hist) == d]
+                if not sids:
+                    diff_done = d
+                    continue
+                if time.time() + per_state * len(sids) * 2.0 > deadline + 0.25 * (deadline - t_start):
+                    chk.part(name, differential_note="routes of depth >= %d skipped (time)" % d)
+                    break
                 res = run_level(sids, use_alts=True)
                 for sid, bkey, bprob, succ in res:
                     st = states[sid]
@@ -419,8 +429,7 @@ def table_bfs(chk, name, keys, roots, max_depth, variant, full, with_clone, dead
                         for kind, text in prob:
                             if kind == "route-dependent":
                                 report(kind, text, st.root, st.hist + (ops[opidx],), mdl.apply(model_op(ops[opidx])), prob)
-            elif sids:
-                chk.cap("%s: differential start states skipped (out of time)" % name)
+                diff_done = d
     finally:
         pool.terminate()
         pool.join()
@@ -429,12 +438,82 @@ def table_bfs(chk, name, keys, roots, max_depth, variant, full, with_clone, dead
     tomb = sum(1 for k in seen if "x" in k.split(",")[1])
     chk.add(states=n)
     chk.part(name, states=n, depth_completed=completed, variant=variant, capacities_seen=str(caps),
-             states_with_tombstones=tomb, differential_routes=ndiff, violations=nviol[0],
+             states_with_tombstones=tomb, differential_routes=ndiff, differential_depth=diff_done, violations=nviol[0],
              wall_s=round(time.time() - t_start, 1), ops_per_state=len(ops))
     if states:
         mid = states[len(states) // 2]
         chk.sample({"part": name, "middle_state": fmt_hist(mid.root, mid.hist), "last_state": fmt_hist(states[-1].root, states[-1].hist)})
     return n, completed
+
+
+
+# ---------------------------------------------------------------------------
+# ill-typed arguments to table/struct functions: full product of
+# (function, argument position, value of every type)
+
+DRV_MISC = os.path.join(HERE, "driver_misc.janet")
+T0_CANON = "#0=@{:a 1 :b 2}^#1=@{:p 9}"
+
+# one value of every type: (janet data text, type name)
+TYPED = [("nil", "nil"), ("true", "boolean"), ("1", "nat"), ("-1", "int"), ("1.5", "number"), (":k", "keyword"),
+         ("\"s\"", "string"), ("sy", "symbol"), ("[1]", "tuple"), ("@[1]", "array"), ("S", "struct"),
+         ("T", "table"), ("P", "table"), ("@\"b\"", "buffer")]
+ANY = None
+# function -> (well-typed template, accepted types per position (None = anything))
+MISC_FUNS = {
+    "table/new": (["1"], [{"nat"}]),
+    "table/setproto": (["T", "P"], [{"table"}, {"table", "nil"}]),
+    "table/getproto": (["T"], [{"table"}]),
+    "table/rawget": (["T", ":a"], [{"table"}, ANY]),
+    "table/clone": (["T"], [{"table"}]),
+    "table/clear": (["T"], [{"table"}]),
+    "table/to-struct": (["T", "S"], [{"table"}, {"struct", "nil"}]),
+    "table/proto-flatten": (["T"], [{"table"}]),
+    "struct/to-table": (["S", "true"], [{"struct"}, ANY]),
+    "struct/getproto": (["S"], [{"struct"}]),
+    "struct/rawget": (["S", ":a"], [{"struct"}, ANY]),
+    "struct/proto-flatten": (["S"], [{"struct"}]),
+    "struct/with-proto": (["S", ":x", "1"], [{"struct", "nil"}, ANY, ANY]),
+}
+
+
+def misc_part(chk):
+    items, meta = [], []
+    for fn, (tmpl, acc) in sorted(MISC_FUNS.items()):
+        items.append("[%s %s]" % (fn, " ".join(tmpl)))
+        meta.append((fn, list(tmpl), False))
+        for pos in range(len(tmpl)):
+            for txt, ty in TYPED:
+                args = list(tmpl)
+                args[pos] = txt
+                raises = acc[pos] is not ANY and ty not in acc[pos]
+                items.append("[%s %s]" % (fn, " ".join(args)))
+                meta.append((fn, args, raises))
+        # arity: no arguments at all
+        items.append("[%s]" % fn)
+        meta.append((fn, [], True))
+    res = run_batch("asan", DRV_MISC, items, chunk=200)
+    n = 0
+    for (fn, args, raises), (status, text) in zip(meta, res):
+        n += 1
+        src = "(%s %s)" % (fn, " ".join(a.replace("sy", "'sy") if a == "sy" else a for a in args))
+        replay = ("(def P @{:p 9}) (def T (table/setproto @{:a 1 :b 2} P)) (def S {:a 1})\n"
+                  "(def r (protect %s))\n(printf \"%%s -> %%q ; T is now %%q\" %s (if (r 0) :returned :raised) T)\n"
+                  "# expected: %s\n") % (src, jdn(src), "raises, T unchanged" if raises else "returns")
+        if status != "OK":
+            chk.violation(sig="illtyped:%s:process-dies" % fn, what="%s: %s %s" % (src, status, text[-300:]), replay_text=replay)
+            continue
+        out, canon = text.split(";", 1)
+        chk.outcome("misc %s %s" % (fn, out))
+        if (out == "E") != raises:
+            chk.violation(sig="illtyped:%s:%s" % (fn, "returns-instead-of-raising" if raises else "raises-on-valid-argument"),
+                          what="%s %s, expected it to %s" % (src, "returned" if out == "R" else "raised", "raise" if raises else "return"),
+                          replay_text=replay)
+        elif raises and canon != T0_CANON:
+            chk.violation(sig="illtyped:%s:state-changed" % fn, what="%s raised but the table is now %s" % (src, canon), replay_text=replay)
+    chk.add(evaluations=n, transitions=n)
+    chk.part("illtyped-table-struct", evaluations=n, functions=len(MISC_FUNS), values_per_position=len(TYPED))
+    return "illtyped product %d calls" % n
 
 
 # ---------------------------------------------------------------------------
@@ -473,21 +552,22 @@ def main():
         plan = [
             ("table-A", keysets["A"], roots_main, 4, "fast", True, True, 0.10, 3, 4, "full"),
             ("table-A-asan", keysets["A"], roots_main, 3, "asan", True, True, 0.05, 0, 3, "full"),
-            ("layout-A", keysets["A"], roots_main, 12, "fast", True, False, 0.15, 4, 8, "layout"),
-            ("layout-B", keysets["B"], roots_more, 9, "fast", True, False, 0.08, 0, 6, "layout"),
-            ("layout-C", keysets["C"], roots_more, 9, "fast", True, False, 0.08, 0, 6, "layout"),
+            ("layout-A", keysets["A"], roots_main, 30, "fast", True, False, 0.15, 4, 12, "layout"),
+            ("layout-B", keysets["B"], roots_more, 9, "fast", True, False, 0.08, 0, 7, "layout"),
+            ("layout-C", keysets["C"], roots_more, 9, "fast", True, False, 0.08, 0, 7, "layout"),
             ("layout-A-asan", keysets["A"], roots_main, 8, "asan", True, True, 0.08, 0, 6, "layout"),
         ]
     else:
         plan = [
-            ("table-A", keysets["A"], roots_main, 6, "fast", True, True, 0.12, 5, 5, "full"),
-            ("table-B", keysets["B"], roots_more, 5, "fast", True, True, 0.05, 4, 4, "full"),
-            ("table-C", keysets["C"], roots_more, 5, "fast", True, True, 0.05, 4, 4, "full"),
-            ("table-A-asan", keysets["A"], roots_main, 5, "asan", True, True, 0.08, 0, 4, "full"),
-            ("layout-A", keysets["A"], roots_more, 24, "fast", True, True, 0.15, 5, 10, "layout"),
-            ("layout-B", keysets["B"], roots_more, 24, "fast", True, True, 0.10, 5, 10, "layout"),
-            ("layout-C", keysets["C"], roots_more, 24, "fast", True, True, 0.10, 5, 10, "layout"),
-            ("layout-A-asan", keysets["A"], roots_main, 14, "asan", True, True, 0.08, 0, 8, "layout"),
+            ("table-A", keysets["A"], roots_main, 5, "fast", True, True, 0.12, 4, 5, "full"),
+            ("table-B", keysets["B"], roots_main, 5, "fast", True, False, 0.07, 3, 4, "full"),
+            ("table-C", keysets["C"], roots_main, 5, "fast", True, False, 0.07, 3, 4, "full"),
+            ("table-A-asan", keysets["A"], roots_main, 4, "asan", True, True, 0.04, 0, 4, "full"),
+            ("layout-A", keysets["A"], roots_main, 40, "fast", True, True, 0.08, 5, 12, "layout"),
+            ("layout-B", keysets["B"], roots_main, 40, "fast", True, True, 0.08, 5, 12, "layout"),
+            ("layout-C", keysets["C"], roots_main, 40, "fast", True, True, 0.08, 5, 12, "layout"),
+            ("layout-A-roots", keysets["A"], roots_more, 13, "fast", True, False, 0.06, 0, 10, "layout"),
+            ("layout-A-asan", keysets["A"], roots_main, 40, "asan", True, True, 0.10, 0, 10, "layout"),
         ]
     bounds = []
     for (name, keys, roots, maxd, variant, full, wc, share, diffd, mind, alpha) in plan:
@@ -496,6 +576,9 @@ def main():
         deadline = time.time() + budget * share
         n, comp = table_bfs(chk, name, keys, roots, maxd, variant, full, wc, deadline, diff_depth=diffd, min_depth=mind, alphabet=alpha)
         bounds.append("%s depth %d" % (name, comp))
+
+    if want("illtyped"):
+        bounds.append(misc_part(chk))
 
     if only is None or only.startswith("seq"):
         bounds += seqcheck.run(chk, T0, budget)
